@@ -19,9 +19,10 @@ func init() {
 			"R3 Close closes both sockets and closeChan and sets closed on every path past its `closed` test, the test and the set share one write-locked section together with the loads of the sockets it closes; closed is never reset; a socket is installed only behind a `closed == false` test in the same critical section; the inner WriteTo is behind the same test and the closed edge returns a non-nil error; every receive from recvQueue is a select that also listens on closeChan and that arm returns a non-nil error; " +
 			"R4 the inner WriteTo is invoked on the loaded currentConn with destination Addrs[addrIndex] of the same object; addrIndex is only stored as rand.Intn(len(Addrs)); Addrs is frozen after construction; each element is UDPAddr{IP: a.IP, Port: int(a.Ports[i])}; Ports is only stored as ParsePortUnion(s).Ports(); " +
 			"R5 every narrowing conversion to uint16 in the port parser takes strconv.ParseUint(_, _, <=16) or a value bounded by a guard against a widened uint16, and `<=`-bounded induction variables are wider than their bound; " +
-			"R6 a receive loop is started on every installed socket, it returns only on the ReadFrom-error edge, and an owned socket is closed only in the final Close or (prevConn only) on the listen-success edge of a hop - so the loop on the previous socket keeps feeding the queue until the next hop.",
+			"R6 a receive loop is started on every installed socket, it returns only on the ReadFrom-error edge, and an owned socket is closed only in the final Close or (prevConn only) on the listen-success edge of a hop - so the loop on the previous socket keeps feeding the queue until the next hop; " +
+			"R7 (necessary conditions of the set semantics, not the semantics) every PortRange the parser builds has Start <= End established where it is built (same value, ordered constants, min/max of one pair, the two phis of a swap guarded by a comparison of that pair) or the entries are ordered in place before the sort call, and no path through an iteration of the token loop leaves the accumulated union unchanged under a condition computed from that union.",
 		NotDecided: []string{
-			"that a port expression denotes exactly the union of its ports and ranges (set semantics of parse/sort/merge)",
+			"that a port expression denotes exactly the union of its ports and ranges (set semantics of sort/merge: R7 decides only that ordered ranges reach the sort and that no token is skipped on the strength of the accumulated prefix)",
 			"jitter distribution and interval normalisation",
 			"the interleaving claim as a whole (R1-R3 are its lock/ownership core); that hopLoop terminates on closeChan (goroutine hygiene, no socket effect because hop re-tests closed)",
 			"that every element of Ports yields exactly one address (loop trip count)",
@@ -469,6 +470,7 @@ func checkC19(c *Check) {
 	x.c19R3(closeFn, writeFn, readFn, stClosed)
 	parseFn, portsFn := x.c19R4(stClosed)
 	x.c19R5(parseFn, portsFn)
+	x.c19R7(parseFn)
 }
 
 // ---- R1 lock discipline
@@ -1225,6 +1227,68 @@ func c19fitsU16(v ssa.Value, at ssa.Instruction, depth int) (bool, string) {
 	}
 	if c19widened(v, 16) {
 		return true, ""
+	}
+	// a result of a repository helper that only hands back (a selection of) its
+	// arguments or in-range constants: `lo, hi := orderPair(a, b)`
+	{
+		var call *ssa.Call
+		idx := 0
+		if tup, i := tupleSource(v); tup != nil {
+			call, _ = tup.(*ssa.Call)
+			idx = i
+		} else if cl, ok := v.(*ssa.Call); ok {
+			call = cl
+		}
+		if call != nil {
+			if f := staticCallee(call); f != nil && len(f.Blocks) > 0 && f.Pkg != nil && call.Parent() != nil && f.Pkg == call.Parent().Pkg {
+				all, n := true, 0
+				var leaf func(r ssa.Value, d int) bool
+				leaf = func(r ssa.Value, d int) bool {
+					if d > 4 {
+						return false
+					}
+					switch y := r.(type) {
+					case *ssa.Parameter:
+						for i, pa := range f.Params {
+							if pa == y && i < len(call.Call.Args) {
+								ok2, _ := c19fitsU16(call.Call.Args[i], at, depth+1)
+								return ok2
+							}
+						}
+						return false
+					case *ssa.Const:
+						k, ok := constInt(y)
+						return ok && k >= 0 && k <= 65535
+					case *ssa.Phi:
+						for _, e := range y.Edges {
+							if !leaf(e, d+1) {
+								return false
+							}
+						}
+						return true
+					}
+					return false
+				}
+				allInstrs(f, func(in ssa.Instruction) {
+					ret, ok := in.(*ssa.Return)
+					if !ok {
+						return
+					}
+					rs := retResults(ret)
+					if idx >= len(rs) {
+						all = false
+						return
+					}
+					n++
+					if !leaf(rs[idx], 0) {
+						all = false
+					}
+				})
+				if all && n > 0 {
+					return true, ""
+				}
+			}
+		}
 	}
 	if call, ok := v.(*ssa.Call); ok && (isBuiltinCall(call, "min") || isBuiltinCall(call, "max")) {
 		for _, a := range call.Call.Args {
